@@ -158,6 +158,15 @@ impl Prop for C06 {
             },
         ));
         v.push(Scope::new(
+            "circle-parts",
+            "the quadrants and halves of every catalogue circle (quarter and half arcs of every size) x 3 offsets",
+            move |f| {
+                for d in shapes::circle_parts_family() {
+                    f(Case::sn(d, vec![0]));
+                }
+            },
+        ));
+        v.push(Scope::new(
             "divided-boxes",
             "boxes divided by a T-junction, +---+---+ with both widths 1..20 (interior points of long lines) x 24 offsets",
             move |f| {
